@@ -9,7 +9,8 @@ stored — and `parseBlockNumberFromKey`, by which `LoadLastBlock` / `LoadFirstB
 * **two positions never share a key** (`tie_tx_index_key_injective`): "found by (block, index)" cannot return the transaction of
   another position;
 * big-endian height bytes are ordered as the heights (`tie_height_bytes_order`): the first / last key under the prefix is that of the
-  lowest / highest indexed block;
+  lowest / highest indexed block; at the level of whole keys: a lower block's keys come first whatever the indices
+  (`tie_tx_index_key_order_height`), and within a block the keys are ordered by index (`tie_tx_index_key_order_index`);
 * the height read back from a key is the height it was built from (`tie_parse_block_number_roundtrip`): the resume point of the
   indexer service is a height that was really indexed.
 -/
@@ -226,6 +227,48 @@ theorem tie_height_bytes_order (a b : Nat) (ha : a < 2^64) (hb : b < 2^64) (h : 
       · omega
     · omega
   · omega
+
+theorem append_lt_append_of_lt (A1 : List Nat) : ∀ (A2 B1 B2 : List Nat), A1.length = A2.length → A1 < A2 → A1 ++ B1 < A2 ++ B2 := by
+  induction A1 with
+  | nil =>
+    intro A2 B1 B2 hl h
+    cases A2 with
+    | nil => exact absurd h (List.lt_irrefl _)
+    | cons y ys => simp at hl
+  | cons x xs ih =>
+    intro A2 B1 B2 hl h
+    cases A2 with
+    | nil => simp at hl
+    | cons y ys =>
+      simp only [List.length_cons, Nat.add_right_cancel_iff] at hl
+      rcases List.cons_lt_cons_iff.mp h with hlt | ⟨he, hlt⟩
+      · exact List.cons_lt_cons_iff.mpr (Or.inl hlt)
+      · exact List.cons_lt_cons_iff.mpr (Or.inr ⟨he, ih ys B1 B2 hl hlt⟩)
+
+theorem toU_of_nonneg (x : Int) (h : 0 ≤ x ∧ x < 2^63) : Go.toU 64 x = x.toNat := by
+  unfold Go.toU
+  have : x % 2^64 = x := Int.emod_eq_of_lt h.1 (by omega)
+  rw [this]
+
+/-- **the index keys of a lower block come first in the byte order of the store**, whatever the indices -/
+theorem tie_tx_index_key_order_height (h1 i1 h2 i2 : Int) (hh1 : 0 ≤ h1) (hlt : h1 < h2) (hh2 : h2 < 2^63) (k1 k2 : List Nat)
+    (e1 : indexer_TxIndexKey h1 i1 = some k1) (e2 : indexer_TxIndexKey h2 i2 = some k2) : k1 < k2 := by
+  rw [tie_tx_index_key] at e1 e2
+  injection e1 with e1; injection e2 with e2; subst e1 e2
+  rw [List.append_assoc, List.append_assoc]
+  apply List.append_left_lt
+  apply append_lt_append_of_lt _ _ _ _ (by simp [u64ToBe_length])
+  rw [toU_of_nonneg h1 ⟨hh1, by omega⟩, toU_of_nonneg h2 ⟨by omega, hh2⟩]
+  apply tie_height_bytes_order <;> omega
+
+/-- **within one block the index keys are ordered by the transaction index** -/
+theorem tie_tx_index_key_order_index (h i1 i2 : Int) (hi1 : 0 ≤ i1) (hlt : i1 < i2) (hi2 : i2 < 2^31) (k1 k2 : List Nat)
+    (e1 : indexer_TxIndexKey h i1 = some k1) (e2 : indexer_TxIndexKey h i2 = some k2) : k1 < k2 := by
+  rw [tie_tx_index_key] at e1 e2
+  injection e1 with e1; injection e2 with e2; subst e1 e2
+  apply List.append_left_lt
+  rw [toU_of_nonneg i1 ⟨hi1, by omega⟩, toU_of_nonneg i2 ⟨by omega, by omega⟩]
+  apply tie_height_bytes_order <;> omega
 
 example : indexer_TxIndexKey 258 3 = some [2, 0, 0, 0, 0, 0, 0, 1, 2, 0, 0, 0, 0, 0, 0, 0, 3] := by decide
 
